@@ -11,6 +11,13 @@ package fasthttp
 // session, the SNI, and every request.  Every request carries, in its path, the scheme/host/port of the URL it was
 // made for, so the oracle can tell from the logs alone which connection carried which request.  The oracle runs after
 // the client calls returned, the client's idle connections were closed and all server goroutines were joined.
+//
+// Overlapping calls without a scheduler: the fake network calls back into the harness from the two places where the
+// client calls out to the network with no lock held - the dial hook and net.Conn.Close of a client end.  An op may carry
+// nested ops (In) that are executed re-entrantly, on the calling goroutine, inside the first dial the op makes (Do /
+// DoRedirects) or inside the At-th connection close it makes (CloseIdle).  Nested calls start and finish while the outer
+// call is between two of its own steps, i.e. a LIFO-shaped subset of the interleavings of concurrent callers,
+// deterministic and replayable.  The idle pools are inspected (white box) after every CloseIdle op and after the last op.
 
 import (
 	"bufio"
@@ -29,8 +36,10 @@ import (
 	"net/http"
 	"net/url"
 	"regexp"
+	"sort"
 	"strings"
 	"sync"
+	"sync/atomic"
 	"testing"
 	"time"
 
@@ -45,9 +54,47 @@ type c21Target struct{ Scheme, Host, Port string } // Port "" = none spelled
 
 type c21Op struct {
 	Build string      // "" = SetRequestURI(full URL); "host+scheme" = Host header + path, then URI().SetScheme
-	Via   string      // Do | DoRedirects
+	Via   string      // Do | DoRedirects | CloseIdle (CloseIdleConnections of the client under test; T unused)
 	T     c21Target   // the URL requested
 	Redir []c21Target // DoRedirects: the server redirects to these in turn
+	// In: ops executed re-entrantly while this op is in progress: Do/DoRedirects - inside the dial hook of the first
+	// dial this call makes (before the connection is handed over); CloseIdle - inside the At-th (1-based)
+	// net.Conn.Close this call makes on a client end.  Not executed when the call never gets there.
+	In []c21Op `json:",omitempty"`
+	At int     `json:",omitempty"`
+}
+
+// c21Flatten numbers the ops of a case in pre-order; the number is the op index used in request tags and results.
+func c21Flatten(ops []c21Op, out []*c21Op) []*c21Op {
+	for i := range ops {
+		out = append(out, &ops[i])
+		out = c21Flatten(ops[i].In, out)
+	}
+	return out
+}
+
+func c21OpsString(sb *strings.Builder, ops []c21Op) {
+	for i := range ops {
+		o := &ops[i]
+		if o.Via == "CloseIdle" {
+			sb.WriteString(" CloseIdle")
+			if len(o.In) > 0 {
+				fmt.Fprintf(sb, "{in close #%d:", o.At)
+				c21OpsString(sb, o.In)
+				sb.WriteString(" }")
+			}
+			continue
+		}
+		fmt.Fprintf(sb, " %s%s %s://%s", o.Via, map[bool]string{true: "(" + o.Build + ")"}[o.Build != ""], o.T.Scheme, o.T.hostport())
+		for _, t := range o.Redir {
+			fmt.Fprintf(sb, "=>%s://%s", t.Scheme, t.hostport())
+		}
+		if len(o.In) > 0 {
+			sb.WriteString("{in dial:")
+			c21OpsString(sb, o.In)
+			sb.WriteString(" }")
+		}
+	}
 }
 
 type c21Upstream struct {
@@ -122,12 +169,7 @@ func c21CaseString(cs *c21Case) string {
 	if len(cs.WrongCert) > 0 {
 		fmt.Fprintf(&sb, " peer-with-other-hosts-cert%v", cs.WrongCert)
 	}
-	for _, o := range cs.Ops {
-		fmt.Fprintf(&sb, " %s%s %s://%s", o.Via, map[bool]string{true: "(" + o.Build + ")"}[o.Build != ""], o.T.Scheme, o.T.hostport())
-		for _, t := range o.Redir {
-			fmt.Fprintf(&sb, "=>%s://%s", t.Scheme, t.hostport())
-		}
-	}
+	c21OpsString(&sb, cs.Ops)
 	return sb.String()
 }
 
@@ -154,6 +196,10 @@ type c21End struct {
 	r, w     *c21Half
 	rec      *c21ConnRec
 	isClient bool
+	net      *c21Net
+	// clientClosed: Close was called on this client end (by the client under test).  Written and read on the
+	// goroutine running the case only (the watchdog's abort does not go through Close).
+	clientClosed bool
 }
 
 func (e *c21End) Read(p []byte) (int, error) {
@@ -190,9 +236,19 @@ func (e *c21End) Write(p []byte) (int, error) {
 }
 
 func (e *c21End) Close() error {
+	if e.isClient && !e.clientClosed {
+		e.clientClosed = true
+		if e.net != nil && e.net.onClientClose != nil {
+			e.net.onClientClose() // re-entrancy point: nested ops of a CloseIdle op run here
+		}
+	}
+	e.shut()
+	return nil
+}
+
+func (e *c21End) shut() {
 	e.r.close()
 	e.w.close()
-	return nil
 }
 func (e *c21End) LocalAddr() net.Addr              { return c21Addr("c21-local") }
 func (e *c21End) RemoteAddr() net.Addr             { return c21Addr(e.rec.Addr) }
@@ -229,6 +285,8 @@ type c21ConnRec struct {
 }
 
 type c21Net struct {
+	onDial        func() // called by the dial hooks before a connection is made (re-entrancy point)
+	onClientClose func() // called on the first Close of every client end (re-entrancy point)
 	refuse    map[string]bool
 	wrongCert map[string]bool
 	refused   int
@@ -247,6 +305,9 @@ func c21HostOf(addr string) string {
 }
 
 func (n *c21Net) dial(addr, hook string) (net.Conn, error) {
+	if n.onDial != nil {
+		n.onDial()
+	}
 	if n.refuse[addr] {
 		n.mu.Lock()
 		n.refused++
@@ -259,8 +320,8 @@ func (n *c21Net) dial(addr, hook string) (net.Conn, error) {
 	if n.wrongCert[addr] {
 		rec.CertFor = map[string]string{"hosta": "hostb", "hostb": "hosta"}[rec.CertFor]
 	}
-	cl := &c21End{r: a, w: b, rec: rec, isClient: true}
-	sv := &c21End{r: b, w: a, rec: rec}
+	cl := &c21End{r: a, w: b, rec: rec, isClient: true, net: n}
+	sv := &c21End{r: b, w: a, rec: rec, net: n}
 	n.conns = append(n.conns, rec)
 	n.ends = append(n.ends, cl, sv)
 	n.mu.Unlock()
@@ -275,7 +336,7 @@ func (n *c21Net) abort() {
 	ends := append([]*c21End(nil), n.ends...)
 	n.mu.Unlock()
 	for _, e := range ends {
-		e.Close()
+		e.shut()
 	}
 }
 
@@ -373,7 +434,11 @@ type c21Counters struct {
 	cases, tlsSessions, plainConns, httpsDelivered, httpDelivered, refusals, lbRefusals, crossSchemeRedirects int64
 	reuses, bothSchemesSameAddr, hsFailed, dialHook, dialTimeoutHook, mapEntries                            int64
 	failoverOK, failoverErr, wrongCertConns, wrongCertRejected, refusedDials                                int64
+	nestedRun, closeIdle, closeFired, poolEntries, leftOpen, blocked                                        int64
 }
+
+var c21MaxIdle atomic.Int64 // largest idle pool seen by the white-box inspection
+
 
 func (c *c21Counters) flush(r *vrt.R) {
 	for k, v := range map[string]int64{
@@ -385,6 +450,10 @@ func (c *c21Counters) flush(r *vrt.R) {
 		"c21_fault_cases_calls_succeeded_after_failover": c.failoverOK, "c21_fault_cases_calls_failed": c.failoverErr,
 		"c21_conns_to_peer_with_other_hosts_certificate": c.wrongCertConns, "c21_handshakes_rejected_for_other_hosts_certificate": c.wrongCertRejected,
 		"c21_dials_refused_by_fake_network": c.refusedDials,
+		"c21_ops_executed_reentrantly_inside_dial_or_close": c.nestedRun, "c21_closeidle_ops": c.closeIdle,
+		"c21_closeidle_ops_with_calls_completing_inside_a_close": c.closeFired, "c21_idle_pool_entries_inspected": c.poolEntries,
+		"c21_conns_not_closed_by_client_at_end": c.leftOpen,
+		"c21_nested_ops_not_started_because_they_would_wait_for_Client_mLock": c.blocked,
 		"c21_dials_via_Dial": c.dialHook, "c21_dials_via_DialTimeout": c.dialTimeoutHook, "c21_client_map_entries_checked": c.mapEntries,
 	} {
 		if v != 0 {
@@ -395,12 +464,291 @@ func (c *c21Counters) flush(r *vrt.R) {
 }
 
 type c21OpResult struct {
-	err    error
-	status int
-	body   string
+	err      error
+	status   int
+	body     string
+	executed bool   // false: the op was never started (its parent never reached the hook, or the case was stopped)
+	panicked string // non-empty: the client call panicked
 }
 
-func c21Exec(cs *c21Case, n *c21Net) (res []c21OpResult, cl *Client, bad string) {
+type c21PoolViol struct{ sig, what string }
+
+type c21Frame struct {
+	op     *c21Op
+	fired  bool
+	closes int
+}
+
+type c21Doer interface {
+	Do(req *Request, resp *Response) error
+}
+
+type c21RedirDoer interface {
+	DoRedirects(req *Request, resp *Response, max int) error
+}
+
+// c21Runner executes the op tree of one case on one goroutine.
+type c21Runner struct {
+	cs    *c21Case
+	n     *c21Net
+	flat  []*c21Op
+	idx   map[*c21Op]int
+	res   []c21OpResult
+	stack []*c21Frame
+	d     c21Doer
+	cl    *Client
+	hcs   []*HostClient
+	bad   string
+	// stop: a pool entry was found corrupted; the offending entries were taken out of the pool and no further op is
+	// started (the state no longer is one the client produced by itself).
+	stop        bool
+	pool        []c21PoolViol
+	poolEntries int64
+	nestedRun   int64
+	closeIdle   int64
+	closeFired  int64
+	maxIdle     int
+	blocked     int64
+}
+
+func (rn *c21Runner) top() *c21Frame {
+	if len(rn.stack) == 0 {
+		return nil
+	}
+	return rn.stack[len(rn.stack)-1]
+}
+
+func (rn *c21Runner) onDial() {
+	f := rn.top()
+	if f == nil || f.op.Via == "CloseIdle" || f.fired || len(f.op.In) == 0 {
+		return
+	}
+	f.fired = true
+	rn.execAll(f.op.In, true)
+}
+
+func (rn *c21Runner) onClientClose() {
+	f := rn.top()
+	if f == nil || f.op.Via != "CloseIdle" {
+		return
+	}
+	f.closes++
+	if f.fired || len(f.op.In) == 0 || f.closes != f.op.At {
+		return
+	}
+	f.fired = true
+	rn.closeFired++
+	rn.execAll(f.op.In, true)
+}
+
+func (rn *c21Runner) execAll(ops []c21Op, nested bool) {
+	for i := range ops {
+		if rn.stop || rn.bad != "" {
+			return
+		}
+		before := rn.blocked
+		rn.exec(&ops[i])
+		if nested && rn.blocked == before {
+			rn.nestedRun++
+		}
+	}
+}
+
+// blockedByClientLock: the op would need a host client that does not exist yet while Client.CloseIdleConnections (which
+// holds Client.mLock for reading) is in progress below it.  A concurrent caller would wait for the write lock until
+// CloseIdleConnections has returned, so the call cannot start AND finish inside one of its connection closes; as a nested
+// call on the same goroutine it would deadlock.  Such an op is not started.
+func (rn *c21Runner) blockedByClientLock(op *c21Op) bool {
+	if rn.cl == nil || op.Via == "CloseIdle" {
+		return false
+	}
+	inside := false
+	for _, f := range rn.stack {
+		if f.op.Via == "CloseIdle" {
+			inside = true
+		}
+	}
+	if !inside {
+		return false
+	}
+	rn.cl.mLock.RLock()
+	defer rn.cl.mLock.RUnlock()
+	for _, t := range append([]c21Target{op.T}, op.Redir...) {
+		m := rn.cl.m
+		if t.https() {
+			m = rn.cl.ms
+		}
+		if m[strings.ToLower(t.hostport())] == nil {
+			return true
+		}
+	}
+	return false
+}
+
+func (rn *c21Runner) exec(op *c21Op) {
+	i := rn.idx[op]
+	if rn.blockedByClientLock(op) {
+		rn.blocked++
+		return
+	}
+	rn.res[i].executed = true
+	rn.stack = append(rn.stack, &c21Frame{op: op})
+	depth := len(rn.stack)
+	defer func() {
+		rn.stack = rn.stack[:depth-1]
+		if p := recover(); p != nil {
+			rn.res[i].panicked = fmt.Sprint(p)
+		}
+	}()
+	if op.Via == "CloseIdle" {
+		rn.closeIdle++
+		if rn.cl != nil {
+			rn.cl.CloseIdleConnections()
+		}
+		for _, h := range rn.hcs {
+			h.CloseIdleConnections()
+		}
+		rn.poolCheck(fmt.Sprintf("after op %d (CloseIdleConnections) returned", i))
+		return
+	}
+	u, _ := op.urls(i)
+	req, resp := AcquireRequest(), AcquireResponse()
+	if op.Build == "host+scheme" {
+		pu, e := url.Parse(u)
+		if e != nil {
+			rn.bad = "url.Parse: " + e.Error()
+			return
+		}
+		req.Header.SetHost(pu.Host)
+		req.SetRequestURI(pu.RequestURI())
+		req.URI().SetScheme(pu.Scheme)
+	} else {
+		req.SetRequestURI(u)
+	}
+	var err error
+	switch op.Via {
+	case "Do":
+		err = rn.d.Do(req, resp)
+	case "DoRedirects":
+		rd, ok := rn.d.(c21RedirDoer)
+		if !ok {
+			rn.bad = rn.cs.Client + " has no DoRedirects"
+			return
+		}
+		err = rd.DoRedirects(req, resp, 5)
+	default:
+		rn.bad = "unknown via " + op.Via
+		return
+	}
+	rn.res[i].err, rn.res[i].status, rn.res[i].body = err, resp.StatusCode(), string(resp.Body())
+	ReleaseRequest(req)
+	ReleaseResponse(resp)
+}
+
+// c21Unwrap returns the fake network's client end under a pooled connection and whether it is wrapped in TLS.
+func c21Unwrap(c net.Conn) (*c21End, bool) {
+	switch x := c.(type) {
+	case *c21End:
+		return x, false
+	case *tls.Conn:
+		e, _ := x.NetConn().(*c21End)
+		return e, true
+	}
+	return nil, false
+}
+
+func (rn *c21Runner) hostClients() []*HostClient {
+	hcs := append([]*HostClient(nil), rn.hcs...)
+	if rn.cl != nil {
+		// (read lock; taken recursively when called below Client.CloseIdleConnections - no writer exists while a case runs
+		// except Client.mCleaner, which first wakes up 10 s after the Client was made)
+		rn.cl.mLock.RLock()
+		for _, k := range c21SortedKeys(rn.cl.m) {
+			hcs = append(hcs, rn.cl.m[k])
+		}
+		for _, k := range c21SortedKeys(rn.cl.ms) {
+			hcs = append(hcs, rn.cl.ms[k])
+		}
+		rn.cl.mLock.RUnlock()
+	}
+	return hcs
+}
+
+func c21SortedKeys(m map[string]*HostClient) []string {
+	ks := make([]string, 0, len(m))
+	for k := range m {
+		ks = append(ks, k)
+	}
+	sort.Strings(ks)
+	return ks
+}
+
+// poolCheck (white box): the idle pool of a HostClient - the connections its next request may be written to - holds only
+// distinct, open connections which this HostClient dialled itself: to one of its own addresses, TLS iff IsTLS.
+func (rn *c21Runner) poolCheck(when string) {
+	seen := map[*clientConn]*HostClient{}
+	seenEnd := map[*c21End]bool{}
+	for _, hc := range rn.hostClients() {
+		own := map[string]bool{}
+		for _, a := range strings.Split(hc.Addr, ",") {
+			own[a] = true
+		}
+		scheme := map[bool]string{false: "http", true: "https"}[hc.IsTLS]
+		hc.connsLock.Lock()
+		if len(hc.conns) > rn.maxIdle {
+			rn.maxIdle = len(hc.conns)
+		}
+		var keep []*clientConn
+		for k, cc := range hc.conns {
+			rn.poolEntries++
+			why, detail := "", ""
+			if cc == nil {
+				why, detail = "nil-entry", "the entry is nil"
+			} else if seen[cc] != nil {
+				why, detail = "entry-pooled-twice", fmt.Sprintf("the same clientConn is also entry of the pool of HostClient{Addr:%q IsTLS:%v}", seen[cc].Addr, seen[cc].IsTLS)
+			} else if cc.c == nil {
+				why, detail = "released-struct-still-pooled", "the entry's clientConn holds no connection: it was reset (handed to the process-wide free list, from which the next dial of ANY HostClient takes it) while still pooled here"
+			} else if e, isTLS := c21Unwrap(cc.c); e == nil || e.net != rn.n {
+				why, detail = "released-struct-still-pooled", fmt.Sprintf("the entry's clientConn holds a connection this client never dialled (%T): the struct went through the process-wide free list while still pooled here", cc.c)
+			} else if seenEnd[e] {
+				why, detail = "entry-pooled-twice", fmt.Sprintf("connection %d is pooled twice", e.rec.ID)
+			} else if !own[e.rec.Addr] {
+				why, detail = "conn-to-other-address", fmt.Sprintf("connection %d was dialled as %s", e.rec.ID, e.rec.Addr)
+			} else if isTLS != hc.IsTLS {
+				why, detail = "conn-of-other-scheme", fmt.Sprintf("connection %d to %s is TLS-wrapped=%v", e.rec.ID, e.rec.Addr, isTLS)
+			} else if e.clientClosed {
+				why, detail = "closed-conn-still-pooled", fmt.Sprintf("connection %d to %s was closed by the client", e.rec.ID, e.rec.Addr)
+			} else {
+				seenEnd[e] = true
+			}
+			if cc != nil {
+				seen[cc] = hc
+			}
+			if why == "" {
+				keep = append(keep, cc)
+				continue
+			}
+			rn.pool = append(rn.pool, c21PoolViol{"idle-pool-entry:" + why + ":" + scheme + ":" + strings.ToLower(rn.cs.Client),
+				fmt.Sprintf("%s: idle pool of HostClient{Addr:%q IsTLS:%v}, entry %d of %d: %s", when, hc.Addr, hc.IsTLS, k, len(hc.conns), detail)})
+		}
+		if len(keep) != len(hc.conns) {
+			rn.stop = true
+			for k := range hc.conns {
+				hc.conns[k] = nil
+			}
+			hc.conns = append(hc.conns[:0], keep...)
+		}
+		hc.connsLock.Unlock()
+	}
+}
+
+func c21Exec(cs *c21Case, n *c21Net) *c21Runner {
+	rn := &c21Runner{cs: cs, n: n, idx: map[*c21Op]int{}}
+	rn.flat = c21Flatten(cs.Ops, nil)
+	for i, o := range rn.flat {
+		rn.idx[o] = i
+	}
+	rn.res = make([]c21OpResult, len(rn.flat))
 	tcfg := &tls.Config{InsecureSkipVerify: true}
 	if cs.Verify == "roots" {
 		tcfg = &tls.Config{RootCAs: c21Roots}
@@ -413,76 +761,46 @@ func c21Exec(cs *c21Case, n *c21Net) (res []c21OpResult, cl *Client, bad string)
 	if cs.Hook == "DialTimeout" || cs.Hook == "both" {
 		dialT = func(a string, _ time.Duration) (net.Conn, error) { return n.dial(a, "DialTimeout") }
 	}
-	type doer interface {
-		Do(req *Request, resp *Response) error
-	}
-	type redirDoer interface {
-		DoRedirects(req *Request, resp *Response, max int) error
-	}
-	var d doer
-	var hcs []*HostClient
 	switch cs.Client {
 	case "Client":
-		cl = &Client{Dial: dial, DialTimeout: dialT, TLSConfig: tcfg, MaxIdleConnDuration: time.Minute}
-		d = cl
+		rn.cl = &Client{Dial: dial, DialTimeout: dialT, TLSConfig: tcfg, MaxIdleConnDuration: time.Minute}
+		rn.d = rn.cl
 	case "HostClient", "LBClient":
 		for _, u := range cs.Upstreams {
-			hcs = append(hcs, &HostClient{Addr: u.Addr, IsTLS: u.IsTLS, Dial: dial, DialTimeout: dialT, TLSConfig: tcfg, MaxIdleConnDuration: time.Minute})
+			rn.hcs = append(rn.hcs, &HostClient{Addr: u.Addr, IsTLS: u.IsTLS, Dial: dial, DialTimeout: dialT, TLSConfig: tcfg, MaxIdleConnDuration: time.Minute})
 		}
 		if cs.Client == "HostClient" {
-			if len(hcs) != 1 {
-				return nil, nil, "HostClient case needs one upstream"
+			if len(rn.hcs) != 1 {
+				rn.bad = "HostClient case needs one upstream"
+				return rn
 			}
-			d = hcs[0]
+			rn.d = rn.hcs[0]
 		} else {
 			lb := &LBClient{Timeout: time.Minute}
-			for _, h := range hcs {
+			for _, h := range rn.hcs {
 				lb.Clients = append(lb.Clients, h)
 			}
-			d = lb
+			rn.d = lb
 		}
 	default:
-		return nil, nil, "unknown client kind " + cs.Client
+		rn.bad = "unknown client kind " + cs.Client
+		return rn
 	}
-	for i := range cs.Ops {
-		op := &cs.Ops[i]
-		u, _ := op.urls(i)
-		req, resp := AcquireRequest(), AcquireResponse()
-		if op.Build == "host+scheme" {
-			pu, e := url.Parse(u)
-			if e != nil {
-				return nil, nil, "url.Parse: " + e.Error()
-			}
-			req.Header.SetHost(pu.Host)
-			req.SetRequestURI(pu.RequestURI())
-			req.URI().SetScheme(pu.Scheme)
-		} else {
-			req.SetRequestURI(u)
-		}
-		var err error
-		switch op.Via {
-		case "Do":
-			err = d.Do(req, resp)
-		case "DoRedirects":
-			rd, ok := d.(redirDoer)
-			if !ok {
-				return nil, nil, cs.Client + " has no DoRedirects"
-			}
-			err = rd.DoRedirects(req, resp, 5)
-		default:
-			return nil, nil, "unknown via " + op.Via
-		}
-		res = append(res, c21OpResult{err, resp.StatusCode(), string(resp.Body())})
-		ReleaseRequest(req)
-		ReleaseResponse(resp)
+	n.onDial, n.onClientClose = rn.onDial, rn.onClientClose
+	rn.execAll(cs.Ops, false)
+	if rn.bad != "" {
+		return rn
 	}
-	if cl != nil {
-		cl.CloseIdleConnections()
+	if !rn.stop {
+		rn.poolCheck("after the last op")
 	}
-	for _, h := range hcs {
+	if rn.cl != nil {
+		rn.cl.CloseIdleConnections()
+	}
+	for _, h := range rn.hcs {
 		h.CloseIdleConnections()
 	}
-	return res, cl, ""
+	return rn
 }
 
 func c21ErrClass(err error) string {
@@ -517,12 +835,24 @@ func c21Run(r *vrt.R, cs *c21Case, ct *c21Counters, sample bool) {
 	}
 	faulty := len(cs.Refuse)+len(cs.WrongCert) > 0
 	wd := time.AfterFunc(60*time.Second, n.abort)
-	res, cl, bad := c21Exec(cs, n)
-	if bad != "" {
+	rn := c21Exec(cs, n)
+	res, cl, flat := rn.res, rn.cl, rn.flat
+	if rn.bad != "" {
 		wd.Stop()
-		r.ToolError("c21: %s", bad)
+		n.abort()
+		r.ToolError("c21: %s", rn.bad)
 		return
 	}
+	// connections the client did not close (none on a healthy client: its idle connections were just closed) are shut
+	// by the harness so that their server goroutines finish
+	n.mu.Lock()
+	for _, e := range n.ends {
+		if e.isClient && !e.clientClosed {
+			ct.leftOpen++
+			e.shut()
+		}
+	}
+	n.mu.Unlock()
 	n.wg.Wait() // every server goroutine has finished: the logs are final
 	wd.Stop()
 	if n.aborted {
@@ -530,9 +860,23 @@ func c21Run(r *vrt.R, cs *c21Case, ct *c21Counters, sample bool) {
 		return
 	}
 	ct.cases++
+	ct.nestedRun += rn.nestedRun
+	ct.closeIdle += rn.closeIdle
+	ct.blocked += rn.blocked
+	ct.closeFired += rn.closeFired
+	ct.poolEntries += rn.poolEntries
+	for m := int64(rn.maxIdle); ; {
+		old := c21MaxIdle.Load()
+		if m <= old || c21MaxIdle.CompareAndSwap(old, m) {
+			break
+		}
+	}
 	viol := func(sig, what string) {
 		cp := *cs
 		r.Violation(sig, what+" | case "+c21CaseString(cs)+" | "+c21Summary(n, res), cp)
+	}
+	for _, pv := range rn.pool {
+		viol(pv.sig, pv.what)
 	}
 	isClient := cs.Client == "Client"
 	upAddr := map[string]bool{}
@@ -547,14 +891,28 @@ func c21Run(r *vrt.R, cs *c21Case, ct *c21Counters, sample bool) {
 		tag     string
 		t       c21Target
 		refused bool // must not be written anywhere
+		skipped bool // the op was never started
 	}
 	var exps []hopExp
 	anyRefusal := false
 	mixed := map[string]int{}
-	for i := range cs.Ops {
-		op := &cs.Ops[i]
+	for i, op := range flat {
+		if op.Via == "CloseIdle" {
+			continue
+		}
+		rs := res[i]
 		_, tags := op.urls(i)
 		all := append([]c21Target{op.T}, op.Redir...)
+		if rs.panicked != "" {
+			viol("client-call-panicked:"+strings.ToLower(cs.Client), fmt.Sprintf("op %d (%s %s://%s) panicked: %s", i, op.Via, op.T.Scheme, op.T.hostport(), rs.panicked))
+		}
+		if !rs.executed || rs.panicked != "" || (rn.stop && rs.err != nil) {
+			// never started (hook not reached / case stopped after a corrupted pool entry was found), or cut short
+			for h, t := range all {
+				exps = append(exps, hopExp{tags[h], t, false, true})
+			}
+			continue
+		}
 		refusedFrom := -1
 		for h, t := range all {
 			if h > 0 && all[h-1].https() != t.https() {
@@ -563,14 +921,13 @@ func c21Run(r *vrt.R, cs *c21Case, ct *c21Counters, sample bool) {
 			if cs.Client == "HostClient" && refusedFrom < 0 && t.https() != cs.Upstreams[0].IsTLS {
 				refusedFrom = h
 			}
-			exps = append(exps, hopExp{tags[h], t, refusedFrom >= 0})
+			exps = append(exps, hopExp{tags[h], t, refusedFrom >= 0, false})
 			if t.https() {
 				mixed[t.wantAddr()] |= 2
 			} else {
 				mixed[t.wantAddr()] |= 1
 			}
 		}
-		rs := res[i]
 		switch cs.Client {
 		case "Client":
 			if rs.err != nil {
@@ -700,6 +1057,10 @@ func c21Run(r *vrt.R, cs *c21Case, ct *c21Counters, sample bool) {
 	}
 	for _, e := range exps {
 		switch {
+		case e.skipped:
+			if !rn.stop && delivered[e.tag] > 0 {
+				r.ToolError("c21: request %s of an op that was never started was delivered", e.tag)
+			}
 		case e.refused && delivered[e.tag] > 0:
 			viol(fmt.Sprintf("hostclient-tls-%v-wrote-%s-request", cs.Upstreams[0].IsTLS, strings.ToLower(e.t.Scheme)), "request "+e.tag+" had to be refused but was written")
 		case isClient && delivered[e.tag] != 1:
@@ -724,7 +1085,7 @@ func c21Run(r *vrt.R, cs *c21Case, ct *c21Counters, sample bool) {
 		}
 		cl.mLock.RUnlock()
 	}
-	if (sawTLS && sawPlain) || anyRefusal || (faulty && (n.refused > 0 || sawTLS)) {
+	if (sawTLS && sawPlain) || anyRefusal || (faulty && (n.refused > 0 || sawTLS)) || rn.nestedRun > 0 {
 		r.Nontrivial(c21CaseString(cs))
 	}
 	if sample && r.WantSample() {
@@ -753,7 +1114,14 @@ func c21Summary(n *c21Net, res []c21OpResult) string {
 		sb.WriteString("; ")
 	}
 	for i, x := range res {
-		fmt.Fprintf(&sb, "op%d: err=%v status=%d; ", i, x.err, x.status)
+		switch {
+		case !x.executed:
+			fmt.Fprintf(&sb, "op%d: not started; ", i)
+		case x.panicked != "":
+			fmt.Fprintf(&sb, "op%d: PANIC %s; ", i, x.panicked)
+		default:
+			fmt.Fprintf(&sb, "op%d: err=%v status=%d; ", i, x.err, x.status)
+		}
 	}
 	return sb.String()
 }
@@ -1004,7 +1372,176 @@ func c21Spaces(r *vrt.R) []c21Space {
 				}
 			}
 		}})
+	sp = append(sp, c21OverlapSpaces(r)...)
 	return sp
+}
+
+// c21OverlapSpaces: histories with overlapping calls (see the header comment): requests that start and finish inside the
+// dial of another request (so that a pool holds several idle connections) and inside one of the connection closes of a
+// CloseIdleConnections call (so that connections are released into the pool while it is being emptied), followed by
+// further requests of both schemes.
+func c21OverlapSpaces(r *vrt.R) []c21Space {
+	s, p := c21Target{"https", "hosta", ""}, c21Target{"http", "hosta", ""}
+	type kind struct {
+		name string
+		base c21Case
+		urls []c21Target
+	}
+	kinds := []kind{
+		{"Client", c21Case{Client: "Client", Hook: "Dial", Verify: "skip"}, []c21Target{s, p}},
+		{"HostClient{hosta:443,TLS}", c21Case{Client: "HostClient", Hook: "Dial", Verify: "skip", Upstreams: []c21Upstream{{"hosta:443", true}}}, []c21Target{s}},
+		{"HostClient{hosta:80}", c21Case{Client: "HostClient", Hook: "Dial", Verify: "skip", Upstreams: []c21Upstream{{"hosta:80", false}}}, []c21Target{p}},
+	}
+	do := func(t c21Target, in ...c21Op) c21Op { return c21Op{Via: "Do", T: t, In: in} }
+	// shapes of request groups over k URLs: chain(d) = Do[Do[..]] (d simultaneous connections), pair = Do;Do
+	type shape struct {
+		n     int
+		build func(u []c21Target) []c21Op
+	}
+	chain := func(d int) shape {
+		return shape{d, func(u []c21Target) []c21Op {
+			op := do(u[d-1])
+			for i := d - 2; i >= 0; i-- {
+				op = do(u[i], op)
+			}
+			return []c21Op{op}
+		}}
+	}
+	pair := shape{2, func(u []c21Target) []c21Op { return []c21Op{do(u[0]), do(u[1])} }}
+	overURLs := func(sh shape, urls []c21Target, f func(ops []c21Op) bool) bool {
+		dims := make([]int, sh.n)
+		for i := range dims {
+			dims[i] = len(urls)
+		}
+		return seqx.Product(dims, -1, func(x []int) bool {
+			u := make([]c21Target, sh.n)
+			for i, v := range x {
+				u[i] = urls[v]
+			}
+			return f(sh.build(u))
+		})
+	}
+	maxAt := vrt.Pick(r, 2, 3)
+	maxSuffix := vrt.Pick(r, 2, 3)
+	var sp []c21Space
+	sp = append(sp, c21Space{fmt.Sprintf("K6: overlapping calls, client in {Client over https://hosta and http://hosta, HostClient{hosta:443,TLS} over https://hosta, HostClient{hosta:80} over http://hosta}: "+
+		"[1..3 requests nested in each other's dial, every URL assignment: 1..3 simultaneous connections, then idle] ; CloseIdleConnections with nothing or, inside its k-th connection close (k=1..%d), one of {Do, Do;Do, Do{in dial: Do}, Do{in dial: Do{in dial: Do}}} over every URL assignment ; every sequence of 0..%d further Do calls", maxAt, maxSuffix),
+		func(yield func(*c21Case) bool) {
+			inner := []shape{chain(1), pair, chain(2), chain(3)}
+			for _, k := range kinds {
+				for d := 1; d <= 3; d++ {
+					ok := overURLs(chain(d), k.urls, func(prefix []c21Op) bool {
+						events := [][]c21Op{{{Via: "CloseIdle"}}}
+						for at := 1; at <= maxAt; at++ {
+							for _, sh := range inner {
+								overURLs(sh, k.urls, func(in []c21Op) bool {
+									events = append(events, []c21Op{{Via: "CloseIdle", At: at, In: in}})
+									return true
+								})
+							}
+						}
+						for _, ev := range events {
+							for n := 0; n <= maxSuffix; n++ {
+								dims := make([]int, n)
+								for i := range dims {
+									dims[i] = len(k.urls)
+								}
+								ok := seqx.Product(dims, -1, func(x []int) bool {
+									cs := k.base
+									cs.Ops = append(append([]c21Op{}, prefix...), ev...)
+									for _, v := range x {
+										cs.Ops = append(cs.Ops, do(k.urls[v]))
+									}
+									return yield(&cs)
+								})
+								if !ok {
+									return false
+								}
+							}
+						}
+						return true
+					})
+					if !ok {
+						return
+					}
+				}
+			}
+		}})
+	if !r.Thorough() {
+		return sp
+	}
+	// thorough: every op tree (ordered forest) with up to N nodes and nesting depth <= 2 below the top level, every node
+	// labelled Do <url> or CloseIdle@k (k only varies when the node has nested ops)
+	maxNodes := map[string]int{"Client": 5, "HostClient{hosta:443,TLS}": 6, "HostClient{hosta:80}": 5}
+	sp = append(sp, c21Space{"K6b: every op tree (ordered forest of calls; children of a Do run inside its dial, children of a CloseIdleConnections run inside its k-th connection close, k=1..3) with nesting depth <= 2 and at most 5 nodes (Client, labels Do https://hosta | Do http://hosta | CloseIdle@k; HostClient{hosta:80}, labels Do | CloseIdle@k) or 6 nodes (HostClient{hosta:443,TLS}, labels Do | CloseIdle@k)",
+		func(yield func(*c21Case) bool) {
+			for _, k := range kinds {
+				for n := 1; n <= maxNodes[k.name]; n++ {
+					for _, f := range c21Forests(n, 3) {
+						flat := c21Flatten(f, nil)
+						dims := make([]int, len(flat))
+						for i := range dims {
+							dims[i] = len(k.urls) + 3
+						}
+						ok := seqx.Product(dims, -1, func(x []int) bool {
+							for i, v := range x {
+								if v < len(k.urls) {
+									flat[i].Via, flat[i].T, flat[i].At = "Do", k.urls[v], 0
+								} else {
+									at := v - len(k.urls) + 1
+									if len(flat[i].In) == 0 {
+										if at > 1 {
+											return true // k is irrelevant without nested ops
+										}
+										at = 0
+									}
+									flat[i].Via, flat[i].T, flat[i].At = "CloseIdle", c21Target{}, at
+								}
+							}
+							cs := k.base
+							cs.Ops = c21CloneOps(f)
+							return yield(&cs)
+						})
+						if !ok {
+							return
+						}
+					}
+				}
+			}
+		}})
+	return sp
+}
+
+// c21Forests returns the shapes (ops without labels) of all ordered forests with n nodes and at most levels levels.
+func c21Forests(n, levels int) [][]c21Op {
+	if n == 0 {
+		return [][]c21Op{nil}
+	}
+	if levels == 0 {
+		return nil
+	}
+	var out [][]c21Op
+	for k := 1; k <= n; k++ { // the first tree has k nodes
+		for _, kids := range c21Forests(k-1, levels-1) {
+			for _, rest := range c21Forests(n-k, levels) {
+				f := append([]c21Op{{In: c21CloneOps(kids)}}, c21CloneOps(rest)...)
+				out = append(out, f)
+			}
+		}
+	}
+	return out
+}
+
+func c21CloneOps(ops []c21Op) []c21Op {
+	if len(ops) == 0 {
+		return nil
+	}
+	out := make([]c21Op, len(ops))
+	for i, o := range ops {
+		out[i] = o
+		out[i].In = c21CloneOps(o.In)
+	}
+	return out
 }
 
 func TestVerif_C21(t *testing.T) {
@@ -1033,10 +1570,13 @@ func TestVerif_C21(t *testing.T) {
 		"Enumerated spaces, each completely: " + strings.Join(names, " || ") + ". " +
 		"Every request carries its URL's scheme/host/port in its path. Oracle from the per-connection logs after all server goroutines were joined: an https request is decoded only inside an established TLS session (Client: dialled as its own host:port, SNI = its host), its bytes never appear in clear on any dialled connection, raw bytes of a TLS connection start with 0x16 and contain no HTTP/1.1; an http request never arrives inside a TLS session; the SNI of every TLS session equals the host actually dialled, and a verifying client never completes a handshake with (nor delivers a request to) a peer that holds only another host's certificate; " +
 		"HostClient answers ErrHostClientRedirectToDifferentScheme for a URL whose scheme differs from IsTLS (directly and after redirects) and writes nothing for it; Client delivers every request exactly once with err=nil, and Client.m / Client.ms hold only host clients of their scheme. " +
-		"Non-trivial: the case had both a TLS session and a plaintext connection, or a HostClient refusal")
+		"Overlapping calls (K6) are produced without a scheduler by re-entrancy: nested ops run on the calling goroutine inside the fake network's dial hook (before the connection is handed over) or inside the k-th net.Conn.Close made by CloseIdleConnections - the two places where the client calls out with no lock held - so calls start and finish while another call is between two of its steps (the LIFO-shaped subset of concurrent interleavings). " +
+		"White-box oracle after every CloseIdleConnections op and after the last op of every case: each idle-pool entry (HostClient.conns) of every HostClient involved is non-nil, distinct, holds a connection this HostClient dialled itself on the case's network to one of its own addresses, TLS-wrapped iff IsTLS, not closed by the client - i.e. the next request of that scheme can only be written to a connection made for it (a clientConn struct that was reset/handed to the process-wide free list while still pooled is reported as released-struct-still-pooled); a panicking client call is a violation. " +
+		"Non-trivial: the case had both a TLS session and a plaintext connection, or a HostClient refusal, or at least one op executed re-entrantly")
 	r.Assume("crypto/tls and net/http.ReadRequest on the fake server side",
 		"for HostClient/LBClient 'its own host' is the configured upstream address (the caller chose it); the URL host is only checked through Client",
-		"the harness pipe ignores deadlines; a 60 s watchdog turns a hang into a tool error, never into a verdict")
+		"the harness pipe ignores deadlines; a 60 s watchdog turns a hang into a tool error, never into a verdict",
+		"re-entrant nesting reaches only overlaps in which the inner call starts and finishes inside one callback of the outer call; other interleavings of concurrent callers need the controlled scheduler (mc profile) and are not part of this check")
 	W := 64
 	for si, s := range spaces {
 		var total int64
@@ -1068,4 +1608,5 @@ func TestVerif_C21(t *testing.T) {
 		})
 		r.Set(fmt.Sprintf("c21_space_%d_cases", si), fmt.Sprintf("%d: %s", total, s.name))
 	}
+	r.Set("c21_largest_idle_pool_inspected", c21MaxIdle.Load())
 }
